@@ -338,8 +338,16 @@ def _divisor_guard(ctx, acc, run, tag, x1, x2, a, where):
     tests = [(v, node, dec) for v, node, dec in run.asked if G.is_rat(v) and any(aid in (sx, cx) for aid, _ in G.atoms_of(v))]
     bad, undecided = [], []
     ndiv = 0
-    for num, den, node in run.divs:
+    # np.where computes both candidates and keeps one: a quotient that is itself (the very object) a value np.where threw away was formed but
+    # not used, so it is not judged.  A thrown-away value that is anything else may hide a quotient (inside atan2, cancelled, ...): then a
+    # finding is an ANALYSIS-ERROR, never a violation
+    thrown = {id(v) for v in run.sh.discarded}
+    from_div = {id(r) for r in run.sh.div_results if r is not None}
+    risky = any(id(v) not in from_div for v in run.sh.discarded)
+    for k, (num, den, node) in enumerate(run.divs):
         if not G.is_rat(den) or not any(aid in (sx, cx) for aid, _ in G.atoms_of(den)):
+            continue
+        if k < len(run.sh.div_results) and id(run.sh.div_results[k]) in thrown:
             continue
         ndiv += 1
         for pname, (s_, c_) in points.items():
@@ -358,7 +366,7 @@ def _divisor_guard(ctx, acc, run, tag, x1, x2, a, where):
     if undecided:
         ctx.error(f"{tag}: divisor of the in-plane radius", where, undecided)
         return
-    if bad and run.sh.discarded:
+    if bad and risky:
         # np.where computes both candidates and keeps one: a quotient that was formed may be one that was thrown away
         ctx.error(f"{tag}: a quotient by sin / cos of the azimuth is formed where its divisor vanishes, but the function selects values with "
                   "np.where - whether that quotient is the one kept is not tracked", where, bad[:2])
